@@ -95,6 +95,17 @@ def _check_runtime_types(node: ASTNode, type_map: Mapping[Field, FieldTypeInfo])
     return incorrect_fields
 
 
+def _encode_digest_value(val: Any) -> str:
+    """Encode a property value for the id digests.
+
+    The closing delimiter (and the escape character) are escaped in the string form,
+    so that a value containing the digest's own separators can't be confused with
+    the framing of other fields.
+    """
+    val_str = str(val).replace("\\", "\\\\").replace(")", "\\)")
+    return f"{type(val)}({val_str})"
+
+
 NODE_REGISTRY: weakref.WeakValueDictionary[str, ASTNode] = weakref.WeakValueDictionary()
 """Registry of all node objects."""
 
@@ -213,7 +224,7 @@ class ASTNode(DataClassSerializeMixin):
             sort_keys=True,
         ):
             cid_data += f":{f.name}="
-            cid_data += f"{type(val)}({val!s})"
+            cid_data += _encode_digest_value(val)
 
         # Full ID must include origin's (current node and children)
         id_data = f"{self.__class__.__name__}@{self.origin.fqn}{cid_data}"
